@@ -310,9 +310,24 @@ func runFaults(t *testing.T, rc *RunCtx) {
 	}
 	w = newW1(t, rc, cfg, plan)
 	defer w.close()
+	// In a third of the runs the keys are like-named accounts of two wallets (Wallet 1/Account 0,
+	// Wallet 2/Account 0, ...): what was decided for one must not be taken for the other.
+	keyMap := []int{0, 1, 2, 3}
+	if ch.Pick(3, 0) == 2 {
+		for i := range keyMap {
+			wallet := []string{"Wallet 1", "Wallet 2"}[i%2]
+			path := fmt.Sprintf("%s/Account %d", wallet, i/2)
+			for j, a := range w.pop.Accts {
+				if a.Path == path {
+					keyMap[i] = j
+				}
+			}
+		}
+		rc.Stats.Inc("runs_over_like_named_accounts_of_two_wallets", 1)
+	}
 	// Pre-drawn faults at the sites that have no yield point.
 	for k := 0; k < nKeys; k++ {
-		kn := w.pop.Accts[k].KName
+		kn := w.pop.Accts[keyMap[k]].KName
 		switch ch.Pick(12, 0) {
 		case 1:
 			plan.Set("lookup", kn, "error")
@@ -330,6 +345,13 @@ func runFaults(t *testing.T, rc *RunCtx) {
 	for i := range ops {
 		if ch.Pick(6, 0) == 5 {
 			ops[i] = &Op{Kind: "multi", Client: "client1", Entries: []Entry{GenEntry(ch.Pick(nKeys, 0), MkDomain([4]byte{9, 0, 0, 0}, 1), uint64(1000+i)), GenEntry(ch.Pick(nKeys, 0), MkDomain([4]byte{9, 0, 0, 0}, 2), uint64(2000+i))}}
+		}
+	}
+	for _, o := range ops {
+		for j := range o.Entries {
+			if a := o.Entries[j].Acct; a >= 0 && a < len(keyMap) {
+				o.Entries[j].Acct = keyMap[a]
+			}
 		}
 	}
 	w.submit(ops)
